@@ -1,6 +1,6 @@
 //! C10: literate documents. Case: `doc <elements ;;-joined>`; element:
 //!   `C:<stmt>`            code line in the document body (stmt as in C05: D/A/P)
-//!   `F:<name>:<stmt>|<stmt>…`   fenced block ```mech:<name>``` (name `-` = unnamed fence, `!` = disabled)
+//!   `F:<name>:<stmt>|<stmt>…`   fenced block ```mech:<name>``` (name `-` = unnamed fence, `!` = disabled, `#` = hidden, `%` = output off)
 //!   `X:<kind>`            prose: title, section, para, list, quote, break, table, code, comment
 //! Observation: `main{x=…;…}` then `ns<name>{…}` for every sub-interpreter (by name, sorted), or `err`.
 use crate::common::*;
@@ -55,7 +55,7 @@ pub fn source(case: &str) -> String {
     match k {
       "C" => { out.push_str(&stmt_src(rest)); out.push_str("\n\n"); }
       "F" => { let (name, body) = rest.split_once(':').unwrap();
-               let tag = match name { "-" => "mech".to_string(), "!" => "mech:disabled".to_string(), nm => format!("mech:{}", nm) };
+               let tag = match name { "-" => "mech".to_string(), "!" => "mech:disabled".to_string(), "#" => "mech:hidden".to_string(), "%" => "mech{output: false}".to_string(), nm => format!("mech:{}", nm) };
                out.push_str(&format!("```{}\n", tag));
                for s in body.split('|') { out.push_str(&stmt_src(s)); out.push('\n'); }
                out.push_str("```\n\n"); }
@@ -147,7 +147,9 @@ pub fn generate(seed: u64, thorough: bool, sink: &mut Sink) -> Vec<String> {
                        els.push(format!("C:{}", gen_stmt(&mut rng, &mut main_vars, &mut main_muts, &["x", "y", "z", "w", "u", "v"], &foreign, bad))); sink.hit("element:code-line"); }
         6 => { let k = 1 + rng.below(3) as usize; let mut ss = vec![];
                for _ in 0..k { ss.push(gen_stmt(&mut rng, &mut main_vars, &mut main_muts, &["x", "y", "z", "w", "u", "v"], &[], false)); }
-               els.push(format!("F:-:{}", ss.join("|"))); sink.hit("element:unnamed-fence"); }
+               // a plain fence, a hidden one or one with its output switched off: all of them code of the unnamed program
+               let mark = match rng.below(4) { 0 => "#", 1 => "%", _ => "-" };
+               els.push(format!("F:{}:{}", mark, ss.join("|"))); sink.hit(match mark { "#" => "element:hidden-fence", "%" => "element:output-off-fence", _ => "element:unnamed-fence" }); }
         7 => { let k = 1 + rng.below(2) as usize; let mut tv = main_vars.clone(); let mut tm = main_muts.clone(); let mut ss = vec![];
                for _ in 0..k { ss.push(gen_stmt(&mut rng, &mut tv, &mut tm, &["q", "r"], &[], false)); }
                els.push(format!("F:!:{}", ss.join("|"))); sink.hit("element:disabled-fence"); }
